@@ -491,7 +491,9 @@ impl IntoLower for ast::PropertyOp {
     type Output = ir::Expression;
 
     fn into_lower(&self, ctx: &Context) -> Result<Self::Output, Error> {
-        let object = self.operand.into_lower(ctx)?;
+        // a property is always read from a datum-like value, whatever the surrounding
+        // context is (e.g. `Ada(source.amount)` inside an asset expression)
+        let object = self.operand.into_lower(&ctx.enter_datum_expr())?;
 
         let ty = self
             .operand
@@ -735,7 +737,10 @@ impl IntoLower for ast::MintBlockField {
     fn into_lower(&self, ctx: &Context) -> Result<Self::Output, Error> {
         match self {
             ast::MintBlockField::Amount(x) => x.into_lower(ctx),
-            ast::MintBlockField::Redeemer(x) => x.into_lower(ctx),
+            ast::MintBlockField::Redeemer(x) => {
+                let ctx = ctx.enter_datum_expr();
+                x.into_lower(&ctx)
+            }
         }
     }
 }
